@@ -47,7 +47,7 @@ fn opts(i: usize) -> Options { if i == 0 { Options::default() } else { Options::
 
 fn cases(ob: &str) -> Vec<String> {
     let mut out = vec![];
-    if let Some(seed) = crate::gen::thorough_seed(ob) { for t in crate::gen::texts(seed ^ 6, 200, true) { for oi in 0..2 { out.push(format!("samex:{}:{}", crate::hex(t.as_bytes()), oi)); out.push(format!("failx:{}:{}", crate::hex(t.as_bytes()), oi)); } } }
+    if let Some(seed) = crate::gen::thorough_seed(ob) { for t in crate::gen::texts(seed ^ 6, crate::gen::scale(ob, 200), true) { for oi in 0..2 { out.push(format!("samex:{}:{}", crate::hex(t.as_bytes()), oi)); out.push(format!("failx:{}:{}", crate::hex(t.as_bytes()), oi)); } } }
     for (ci, _) in corpus().iter().enumerate() {
         for oi in 0..2 {
             out.push(format!("same:{}:{}", ci, oi));
